@@ -8,8 +8,8 @@
    an identity into a synthetic policy is external: the world carries, per name, the policy entry
    the implementation generated ([w_synth_svc], [w_synth_node]; its ID is an injective function
    of the rules, its ModifyIndex is 0).  Templated policies (builtin/service, builtin/node with a name; builtin/dns without) are
-   deduplicated as ACLTemplatedPolicies.Deduplicate does: first occurrence of each (template,
-   variables), Datacenters of the later ones ignored.  No proofs here. *)
+   deduplicated as ACLTemplatedPolicies.Deduplicate does since b8a4eb3: one per (template,
+   variables), valid in the union of the datacenters of its occurrences (everywhere if one is unscoped).  No proofs here. *)
 From Verif Require Import Base.Prelude.
 From Verif Require Import ACL.Model.
 
@@ -101,15 +101,20 @@ Definition tkey := (N * N)%type.
 Definition tkey_eqb (a b : tkey) : bool := N.eqb (fst a) (fst b) && N.eqb (snd a) (snd b).
 Definition tp_key (t : tpol) : tkey := (tp_tmpl t, tp_name t).
 
-(* ACLTemplatedPolicies.Deduplicate: the first occurrence of each (template name, variables) is
-   kept as it is; the Datacenters of the dropped ones play no role *)
-Fixpoint dedup_tps_from (seen : list tkey) (l : list tpol) : list tpol :=
-  match l with
-  | [] => []
-  | x :: l' => if existsb (tkey_eqb (tp_key x)) seen then dedup_tps_from seen l'
-               else x :: dedup_tps_from (tp_key x :: seen) l'
+(* the Datacenters of the kept templated policy after meeting a duplicate (commit b8a4eb3): an
+   unscoped one stays unscoped, an unscoped duplicate makes it unscoped, otherwise the sorted union *)
+Definition tmerge (new kept : list N) : list N :=
+  if is_nil kept then [] else if is_nil new then [] else merge_sorted (sort_n kept) (sort_n new).
+
+(* one iteration of the loop of ACLTemplatedPolicies.Deduplicate: [index]/[out] as one association
+   list in first-occurrence order *)
+Definition tps_step (m : list (tkey * list N)) (x : tpol) : list (tkey * list N) :=
+  match alookup tkey_eqb (tp_key x) m with
+  | Some kept => aset tkey_eqb (tp_key x) (tmerge (tp_dcs x) kept) m
+  | None => aset tkey_eqb (tp_key x) (tp_dcs x) m
   end.
-Definition dedup_tps (l : list tpol) : list tpol := dedup_tps_from [] l.
+
+Definition dedup_tps (l : list tpol) : list (tkey * list N) := fold_left tps_step l [].
 
 (* one policy of filterPoliciesByScope *)
 Definition in_scope (dc : N) (dcs : list N) : bool :=
@@ -136,8 +141,8 @@ Definition policies_for_identity (w : world) (t : wtoken) : list pentry :=
                              | Some p => [(p, snd e)] | None => [] end) sis
           ++ flat_map (fun n => match alookup N.eqb (ni_name n) (w_synth_node w) with
                                 | Some p => [(p, [ni_dc n])] | None => [] end) nis
-          ++ flat_map (fun x => match alookup tkey_eqb (tp_key x) (w_synth_tp w) with
-                                | Some p => [(p, tp_dcs x)] | None => [] end) tps in
+          ++ flat_map (fun e => match alookup tkey_eqb (fst e) (w_synth_tp w) with
+                                | Some p => [(p, snd e)] | None => [] end) tps in
       let policies :=
           flat_map (fun id => match alookup N.eqb id (w_pols w) with
                               | Some wp => [(wp_entry wp, wp_dcs wp)] | None => [] end) pids
